@@ -114,3 +114,6 @@ func VerifPoolCap(n int) int {
 	binaryPool.Put(b)
 	return c
 }
+
+// VerifNewSmap returns the default single-mutex session storage.
+func VerifNewSmap() SessionStorage { return newSmap() }
